@@ -883,6 +883,24 @@ def d2_level(tier, okx, bad, diffs, nontrivial):
                 if vol is None:
                     info["skipped"][kind] += 1
                     continue
+                # the operator's own OFM depth: a convolution with groups is split by convert_conv_groups into one
+                # convolution per group whose weights are the group's output channels [g*D, (g+1)*D) of the source
+                # constant (tensor names ..._cg<g>_...); any other operator that does not produce all output channels
+                # of the source constant was rewritten by the graph optimiser and is not judged
+                try:
+                    op_ofd = int(cmd["ofm_shapes"][0][-1])
+                except Exception:
+                    op_ofd = vol.shape[0]
+                if op_ofd != vol.shape[0]:
+                    mg = re.search(r"_cg(\d+)(?:_|$)", wsrc["name"])
+                    if mg and kind == "CONV_2D" and op_ofd > 0 and vol.shape[0] % op_ofd == 0 and int(mg.group(1)) < vol.shape[0] // op_ofd:
+                        g = int(mg.group(1))
+                        vol = vol[g * op_ofd:(g + 1) * op_ofd]
+                        d2["convolution_group_tensors"] += 1
+                    else:
+                        info["skipped"]["operator produces %s output channels than the source constant has (rewritten by the graph optimiser; not judged)" % (
+                            "fewer" if op_ofd < vol.shape[0] else "more")] += 1
+                        continue
                 ks = regs.get(R_KERNEL_STRIDE, 0)
                 pk, dil_x, dil_y = (ks >> 2) & 1, 1 + ((ks >> 3) & 1), 1 + ((ks >> 4) & 1)
                 kh = regs.get(R_KERNEL_HEIGHT_M1, 0) // dil_y + 1
